@@ -48,6 +48,9 @@ type BatchSpec struct {
 func BuildDoc(d DocSpec) *bluge.Document {
 	doc := bluge.NewDocument(d.ID)
 	doc.AddField(bluge.NewStoredOnlyField("ver", []byte(strconv.Itoa(d.Ver))))
+	// the version tag as a document value too: observations that must not touch stored fields
+	// (segment version 2 while merges may run, see IceV2RaceKey) read id and version from sort keys
+	doc.AddField(bluge.NewKeywordField("v", strconv.Itoa(d.Ver)).Sortable())
 	for _, t := range d.T {
 		doc.AddField(bluge.NewTextField("t", t).StoreValue().SearchTermPositions())
 	}
@@ -170,6 +173,7 @@ type ObsDoc struct {
 
 // Obs is everything C01 compares.
 type Obs struct {
+	NoStored bool             `json:"no_stored,omitempty"` // ids and versions read from sort keys, stored fields not loaded
 	Count uint64              `json:"count"`
 	Docs  []ObsDoc            `json:"docs"`  // match-all enumeration, sorted by id#ver
 	ByID  map[string][]string `json:"by_id"` // _id term lookup -> sorted vers
@@ -203,6 +207,64 @@ func loadDoc(r *bluge.Reader, number uint64) (ObsDoc, error) {
 		return true
 	})
 	return d, err
+}
+
+// ObserveNoStored is Observe without loading stored fields: ids and version tags come from the
+// sort keys of a search sorted by _id and v (document values).
+func ObserveNoStored(r *bluge.Reader, ids []string) (*Obs, error) {
+	o := &Obs{ByID: map[string][]string{}, NoStored: true}
+	var err error
+	if o.Count, err = r.Count(); err != nil {
+		return nil, fmt.Errorf("count: %w", err)
+	}
+	run := func(q bluge.Query) ([]ObsDoc, error) {
+		it, err := r.Search(context.Background(), bluge.NewTopNSearch(100000, q).SortBy([]string{"_id", "v"}))
+		if err != nil {
+			return nil, err
+		}
+		var docs []ObsDoc
+		for {
+			m, err := it.Next()
+			if err != nil {
+				return nil, err
+			}
+			if m == nil {
+				return docs, nil
+			}
+			if len(m.SortValue) != 2 {
+				return nil, fmt.Errorf("sorted search returned %d sort values", len(m.SortValue))
+			}
+			docs = append(docs, ObsDoc{ID: string(m.SortValue[0]), Ver: string(m.SortValue[1])})
+		}
+	}
+	if o.Docs, err = run(bluge.NewMatchAllQuery()); err != nil {
+		return nil, fmt.Errorf("match-all (sorted): %w", err)
+	}
+	sort.Slice(o.Docs, func(i, j int) bool {
+		a, b := o.Docs[i], o.Docs[j]
+		if a.ID != b.ID {
+			return a.ID < b.ID
+		}
+		return a.Ver < b.Ver
+	})
+	for _, id := range ids {
+		docs, err := run(bluge.NewTermQuery(id).SetField("_id"))
+		if err != nil {
+			return nil, fmt.Errorf("_id lookup %q: %w", id, err)
+		}
+		var vers []string
+		for _, d := range docs {
+			if d.ID != id {
+				return nil, fmt.Errorf("_id lookup %q returned document with id %q", id, d.ID)
+			}
+			vers = append(vers, d.Ver)
+		}
+		sort.Strings(vers)
+		if len(vers) > 0 {
+			o.ByID[id] = vers
+		}
+	}
+	return o, nil
 }
 
 // Observe reads count, the match-all enumeration with stored fields, and the _id lookups.
@@ -336,6 +398,9 @@ func CompareModel(site string, m *Model, o *Obs) *Failure {
 		spec, ok := m.Docs[d.ID+"#"+d.Ver]
 		if !ok {
 			return Failf("document-extra", "%s: unknown document %s#%s", site, d.ID, d.Ver)
+		}
+		if o.NoStored {
+			continue
 		}
 		if !eqStrings(spec.T, d.T) || !eqStrings(spec.K, d.K) || len(spec.N) != d.N {
 			return Failf("stored-field-mismatch", "%s: document %s stored t=%q k=%q n=%d, model t=%q k=%q n=%d", site, spec.Key(), d.T, d.K, d.N, spec.T, spec.K, len(spec.N))
